@@ -56,7 +56,7 @@ let () =
     | ["HF"; id; _key; msg; wit] ->
       (* the frame: BLAKE2b key and the bytes written to the hash *)
       let k = bytes_of_hex _key in
-      Printf.printf "HF %s %s %s\n" id (hex_of_bytes k) (hex_of_bytes (hashcom_input (bytes_of_hex msg) (bytes_of_hex wit)))
+      Printf.printf "HF %s %s %s\n" id (hex_of_bytes (hashcom_hash_key k)) (hex_of_bytes (hashcom_input k (bytes_of_hex msg) (bytes_of_hex wit)))
     | ["HO"; id; key; com; msg; wit; fk; fi; dg] ->
       let fk = bytes_of_hex fk and fi = bytes_of_hex fi and dg = bytes_of_hex dg in
       let h k i = if k = fk && i = fi then dg else raise Miss in
